@@ -7,6 +7,7 @@ input of every successful Update that moved the epoch cursor; ALL its epochs are
 
   per epoch `e<epoch>` then `addr:znn:qsr` per address credited a non-zero amount (sums per address, sorted by the
   address string), [liquidity: `mint=z:q burn=z:q`], `left=<entries left>`;  `error` when the model's Update fails.
+  RE-stake-w <StakeTimeUnitSec> <amount> <stakingTime> | <WeightedAmount stored when the stake was received>
 -/
 namespace ZV.Driver
 open ZV ZV.EpochCursor ZV.RewardEpoch
@@ -73,6 +74,10 @@ def reParseEpochs : Nat → List String → Option (List (EpochStats × Delegs) 
   | _, _ => none
 
 def pureRewardsEpoch : List String → Option String
+  | ["RE-stake-w", unit, amount, time] => do
+      match stakeWeightedAmount (← unit.toInt?) (← amount.toNat?) (← time.toInt?) with
+      | none => pure "panic"
+      | some w => pure (toString w)
   | "RE-stake" :: g :: es :: first :: k :: n :: rest => do
       let rc ← reCfg (← g.toInt?) (← es.toInt?) Gen.MomentumsPerEpoch
       let first ← first.toInt?
